@@ -13,6 +13,22 @@ ASSUME = ("Trusted base: g++ 12.2 / clang++ 14 (front end = interpreter of the t
           "vf/model + harness/*.hh, which contains no Au code. ")
 
 CHECKS = {
+    "C11": dict(level="exploration", technique="exhaustive enumeration of a magnitude x type grid through the C++ front end vs exact big-integer / 90-digit arithmetic",
+                text="Every magnitude of a grid of products of base powers (primes up to 2^64-59, pi; integer and fractional exponents straddling "
+                     "every arithmetic type's limits, normal and denormal) is evaluated for all 11 arithmetic types: representable_in, the value "
+                     "and outcome of get_value_result, is_integer/is_rational/numerator/denominator/integer_part and equality are read out and "
+                     "compared with exact arithmetic; get_value<T> is an accept/reject probe. Explicit don't-care bands at max(T) and in the denormal range.",
+                ref="DESIGN.md §6 C11"),
+    "C13": dict(level="exploration", technique="exhaustive operand-pair / bit-pattern sweeps and per-compiler decltype enumeration vs the raw built-in operators",
+                text="Layout facts for 75 units x 11 reps x Quantity/QuantityPoint on all six compiler configurations; result type of every operator "
+                     "against decltype of the raw operator; all 65536 operand pairs of int8_t/uint8_t (edge windows for wider reps) for every operator "
+                     "against the raw operator; bit-exact round trip over structured float/double/long double alphabets (all 2^32 float patterns in thorough).",
+                ref="DESIGN.md §6 C13"),
+    "C19": dict(level="exploration", technique="exhaustive value sweeps and accept/reject probe enumeration for ZERO vs literal 0",
+                text="For 72 units x 11 reps every comparison/additive form with ZERO in both argument orders is compared with the same form on the raw "
+                     "value and 0 over all 8/16-bit values, windows for wider reps and the special floating values; T x = ZERO for arithmetic and chrono "
+                     "types; every context that requires a QuantityPoint rejects ZERO (probe) while its Quantity twin is accepted.",
+                ref="DESIGN.md §6 C19"),
     "C18": dict(level="model_checking", technique="explicit-state BFS over unit expressions (C02 graph); each state's label read out and parsed by an independent grammar whose denotation is compared with the model",
                 text="For every state of the C02 expression graph plus scale-factor classes up to 2^64-1, rationals, named labelled/unlabelled units, "
                      "library units and prefixes, and common(-point) units, the label (string, sizeof, strlen, NUL; under ASan) is read out, parsed with "
